@@ -35,7 +35,7 @@ mod native {
     use super::*;
     #[test]
     fn native_c17_create_file_roundtrip_sizes() {
-        let l = crate::constants::PIECE_LENGTH;
+        let l = 262144usize;   // "the SHA-1 of each of its 256 KiB chunks": the property's number, NOT crate::constants::PIECE_LENGTH
         let dir = std::path::PathBuf::from(format!("/verif/.cache/native-tmp/c17-{}", std::process::id()));
         let _ = std::fs::remove_dir_all(&dir);
         std::fs::create_dir_all(&dir).unwrap();
